@@ -304,6 +304,21 @@ pub fn fb() { println("modb.fb", pb); helperb(); }
 fn helperb() { println("modb.helperb"); }
 fn main() {}`,
 	}}},
+	{"unused-imports-one-line", Program{Entry: "main", Modules: map[string]string{
+		"main": "import { a, b, c, d } from lib;\nimport { e, f } from lib2;\nfn main() { println(1); }",
+		"lib":  "pub fn a() {}\npub fn b() {}\npub let c = 1;\npub let d = 2;\nfn main() {}",
+		"lib2": "pub fn e() {}\npub fn f() {}\nfn main() {}",
+	}}},
+	{"cycle-through-entry", Program{Entry: "main", Modules: map[string]string{
+		"main": "import { f } from lib;\npub fn back() {}\nfn main() { f(); }",
+		"lib":  "import { back } from main;\npub fn f() { println(\"lib.f\"); }\nfn main() {}",
+	}}},
+	{"cycle-of-three", Program{Entry: "main", Modules: map[string]string{
+		"main": "import { fa } from ca;\nfn main() { fa(); }",
+		"ca":   "import { fb } from cb;\nlet unused_a = 1;\npub fn fa() { fb(); }\nfn main() {}",
+		"cb":   "import { fc } from cc;\npub fn fb() { fc(); }\nfn main() {}",
+		"cc":   "import { fa } from ca;\npub fn fc() { }\nfn unused_c() {}\nfn main() {}",
+	}}},
 	{"modules-overlap", Program{Entry: "main", Modules: map[string]string{
 		"main": `import { f } from ma;
 import { g } from mb;
